@@ -763,6 +763,7 @@ public:
             J.attribute("lid", (int64_t)(((uintptr_t)P->getCanonicalDecl()) & 0x7fffffffffff));
             J.attribute("type", typeStr(P->getType()));
             J.attribute("ctype", canonStr(P->getType()));
+            if (P->hasDefaultArg()) J.attribute("hasdefault", true);
             if (P->hasDefaultArg() && !P->hasUninstantiatedDefaultArg() && !P->hasUnparsedDefaultArg()) {
                 J.attributeBegin("default");
                 auto saved = ids;
